@@ -9,12 +9,12 @@ package fpgo
 // lock-discipline lemma (any number of goroutines, any schedule): every write to the wrapped structure's cells
 // happens while the wrapper's lock is held exclusively, every read while it is held at least shared.
 func vh_C08_LockDiscipline() {
-	base := NewLinkedListQueue[int]()
+	base := NewLinkedListQueue[c08Item]()
 	for i := vfRange("prefill", 0, 2); i > 0; i-- {
-		base.Offer(i)
+		base.Offer(c08Item{Tag: i, Payload: vfInt("payload")})
 	}
-	q := NewConcurrentQueue[int](base)
-	st := NewConcurrentStack[int](base)
+	q := NewConcurrentQueue[c08Item](base)
+	st := NewConcurrentStack[c08Item](base)
 	op := vfChoose("op", 6)
 	lock := &q.lock
 	if op >= 4 {
@@ -23,15 +23,15 @@ func vh_C08_LockDiscipline() {
 	vfMonitorWrites(lock, base)
 	switch op {
 	case 0:
-		q.Offer(3)
+		q.Offer(c08Item{Tag: 3})
 	case 1:
-		q.Put(3)
+		q.Put(c08Item{Tag: 3})
 	case 2:
 		q.Poll()
 	case 3:
 		q.Take()
 	case 4:
-		st.Push(3)
+		st.Push(c08Item{Tag: 3})
 	default:
 		st.Pop()
 	}
